@@ -25,7 +25,8 @@ class C04(c01.C01):
                          'models.judged.with_households_buying_in_another_regions_market',
                          'retry_after_market_refusal.judged',
                          'models.judged.with_getter_results_emptied_by_the_caller',
-                         'portfolio_only_model.second_run_on_same_objects.judged')
+                         'portfolio_only_model.second_run_on_same_objects.judged',
+                         'buyer_declared_through_the_string_api.judged')
     which = ('markets', 'ledger')
 
     def make_case(self, rng, idx, tier):
@@ -35,6 +36,12 @@ class C04(c01.C01):
             return {'kind': 'retry_after_market_refusal', 'why': rng.choice(['no_supplier', 'two_candidates']),
                     'G': [float(rng.randint(10, 30)) for _ in range(6)], 'a1': round(rng.uniform(0.5, 0.8), 2),
                     'a2': round(rng.uniform(0.1, 0.4), 2), 'tax': round(rng.uniform(0.1, 0.3), 2), 'attempts': rng.choice([1, 2])}
+        if idx % 16 == 15:
+            # an extra buyer whose demand is declared through the STRING form of the API, the text aligned with tabs (or other
+            # white space) as when it is pasted from a file
+            return {'kind': 'string_declared_buyer', 'G': [float(rng.randint(10, 30)) for _ in range(6)], 'a1': round(rng.uniform(0.5, 0.8), 2),
+                    'a2': round(rng.uniform(0.1, 0.4), 2), 'tax': round(rng.uniform(0.1, 0.3), 2), 'amount': rng.choice([2.5, 4.0, 1.25]),
+                    'form': ['tabs', 'lead_tab', 'blanks', 'equation_object', 'nbsp'][(idx // 16) % 5]}
         if idx % 16 == 7:
             # a portfolio-only model (plain sectors holding money, no goods or labour market: nothing books flows during
             # generation) is solved, a behavioural parameter is changed and main() is called again on the same objects
@@ -117,6 +124,59 @@ class C04(c01.C01):
         return {'verdict': 'violated' if rec.violations else 'held', 'nontrivial': True, 'shape': 'retry|' + case['why'],
                 'counters': rec.counters, 'violations': rec.violations, 'obs': {'refusals': refused}}
 
+    def run_string_buyer(self, case):
+        import contextlib, io
+        from sfc_models.models import Model, Country
+        from sfc_models.sector import Market, Sector
+        from sfc_models.equation import Equation
+        from sfc_models.sector_definitions import Household, ConsolidatedGovernment, FixedMarginBusiness, TaxFlow
+        from vf import monitors
+        rec = monitors.Recorder()
+        T = 4
+        mod = Model()
+        ca = Country(mod, 'CA', 'CA')
+        gov = ConsolidatedGovernment(ca, 'GOV', 'government')
+        hh = Household(ca, 'HH', 'household', alpha_income=case['a1'], alpha_fin=case['a2'])
+        FixedMarginBusiness(ca, 'BUS', 'business')
+        TaxFlow(ca, 'TF', 'tax flow', case['tax'])
+        x = Sector(ca, 'XB', 'an extra buyer', has_F=True)
+        amt = repr(case['amount'])
+        text = {'tabs': 'DEM_GOOD\t=\t%s\t# purchases, tab aligned' % amt, 'lead_tab': '\tDEM_GOOD = %s' % amt,
+                'blanks': '  DEM_GOOD   =   %s   # purchases' % amt, 'equation_object': 'DEM_GOOD\t= %s' % amt,
+                'nbsp': 'DEM_GOOD\u00a0= %s' % amt}[case['form']]
+        if case['form'] == 'equation_object':
+            x.AddVariableFromEquation(Equation(text))
+        else:
+            x.AddVariableFromEquation(text)
+        Market(ca, 'LAB', 'labour')
+        Market(ca, 'GOOD', 'goods')
+        gov.SetExogenous('DEM_GOOD', list(case['G']))
+        mod.MaxTime = T
+        try:
+            with contextlib.redirect_stdout(io.StringIO()):
+                mod.main()
+        except Exception as e:
+            return {'verdict': 'notjudged', 'shape': 'string_buyer|' + case['form'] + '|' + type(e).__name__, 'counters': rec.counters,
+                    'obs': {'err': repr(e)[:300]}}
+        V = mod.EquationSolver.TimeSeries
+        rec.count('buyer_declared_through_the_string_api.judged')
+        tol = 1e-4
+        for k in range(1, T + 1):
+            d = lambda n: V[n][k] - V[n][k - 1]
+            checks = [('participant_variable_not_market_assigned_amount', V.get('XB__DEM_GOOD', [None] * (T + 1))[k], case['amount']),
+                      ('market_demand_not_sum_of_declared_demands', V['GOOD__DEM_GOOD'][k], V['HH__DEM_GOOD'][k] + V['GOV__DEM_GOOD'][k] + case['amount']),
+                      ('supplier_amounts_do_not_add_up_to_supply', V['BUS__SUP_GOOD'][k], V['GOOD__DEM_GOOD'][k]),
+                      ('sector_ledger_not_sum_of_declared_flows', d('XB__F'), -case['amount']),
+                      ('sector_ledger_not_sum_of_declared_flows', d('BUS__F'), V['BUS__SUP_GOOD'][k] - V['BUS__DEM_LAB'][k])]
+            for kind, got, exp in checks:
+                if got is None or abs(got - exp) > tol * max(1.0, abs(exp)):
+                    rec.violate(kind, {'k': k, 'got': got, 'expected': exp, 'declared_as': text})
+                    break
+            if rec.violations:
+                break
+        return {'verdict': 'violated' if rec.violations else 'held', 'nontrivial': True, 'shape': 'string_buyer|' + case['form'],
+                'counters': rec.counters, 'violations': rec.violations}
+
     def run_second_run(self, case):
         import contextlib, io
         from sfc_models.models import Model, Country
@@ -184,6 +244,8 @@ class C04(c01.C01):
             return self.run_retry(case)
         if case.get('kind') == 'second_run_portfolio_only':
             return self.run_second_run(case)
+        if case.get('kind') == 'string_declared_buyer':
+            return self.run_string_buyer(case)
         res = c01.solve_and_judge(case, self.which, in_situ=False)
         if case.get('build_opts', {}).get('mutate_returned_lists') and res['verdict'] == 'notjudged':
             # the build failed although the only unusual thing the caller did was to empty lists it had been handed:
